@@ -86,3 +86,10 @@ ENTRIES += [
     B('strong-redirects-wrong-option', "            strong_redirects=args.strong_redirects,\n", "            strong_redirects=args.span_hosts,\n", 'C02-D3', DL),
     N('strong-redirects-positional-order', "            post_data=post_data,\n            strong_redirects=args.strong_redirects,\n", "            strong_redirects=args.strong_redirects,\n            post_data=post_data,\n", DL),
 ]
+
+ENTRIES += [
+    B('regress-host-list-case', "        # Hostnames of parsed URLs are lowercase\n        self._accepted = [item.lower() for item in accepted or ()]\n        self._rejected = [item.lower() for item in rejected or ()]\n\n    def test(self, url_info, url_table_record):\n        test_domain = url_info.hostname\n        if self._accepted and not test_domain in self._accepted:",
+      "        self._accepted = accepted\n        self._rejected = rejected\n\n    def test(self, url_info, url_table_record):\n        test_domain = url_info.hostname\n        if self._accepted and not test_domain in self._accepted:", 'C02-D5'),
+    N('host-list-case-frozenset', "        # Hostnames of parsed URLs are lowercase\n        self._accepted = [item.lower() for item in accepted or ()]\n        self._rejected = [item.lower() for item in rejected or ()]\n\n    def test(self, url_info, url_table_record):\n        test_domain = url_info.hostname\n        if self._accepted and not test_domain in self._accepted:",
+      "        self._accepted = frozenset(item.casefold() for item in accepted or ())\n        self._rejected = frozenset(item.casefold() for item in rejected or ())\n\n    def test(self, url_info, url_table_record):\n        test_domain = url_info.hostname\n        if self._accepted and not test_domain in self._accepted:"),
+]
